@@ -2,7 +2,7 @@
    pre-/post-processing factors cancel; FourierTransformInverse o FourierTransform = id
    (complex spaces, no half-complex) for every shape, axes list, shift pattern and sign. *)
 From Coq Require Import ZArith Reals Lra Lia List Bool Arith.
-From Verif Require Import Base.Num Lib.Axis C18.Model C18.ProofsGrid C18.ProofsDFT C18.ProofsCx C18.ProofsAxis.
+From Verif Require Import Base.Num Lib.Axis Gen.FtFormulas C18.Model C18.ProofsGrid C18.ProofsDFT C18.ProofsCx C18.ProofsAxis.
 Import ListNotations.
 Local Open Scope R_scope.
 
@@ -153,10 +153,55 @@ Lemma pre_fac_cancel n sh sg j :
   cmul (pre_fac cispi n sh sg j) (pre_fac cispi n sh (- sg) j) = c1.
 Proof.
   unfold pre_fac. destruct sh.
-  - destruct (Nat.even j); cx_simpl; apply cx_eq; cbn [fst snd]; lra.
-  - numR. rewrite <- cis_add.
-    match goal with |- cispi ?a = _ => replace a with 0 by lra end. exact cis_0.
+  - destruct (Nat.even j); unfold of_re; genR; cx_simpl; apply cx_eq; cbn [fst snd]; lra.
+  - rewrite <- cis_add.
+    match goal with |- cispi ?a = _ => replace a with 0 by (genR; lra) end. exact cis_0.
 Qed.
+
+(* ---------- the regenerated back-end dispatch, in the form the proofs use ---------- *)
+Lemma sign_minus_R sg : is_sign sg -> @sign_minus R _ sg = if Req_EM_T sg (-1) then true else false.
+Proof.
+  intros [-> | ->]; unfold sign_minus; numR.
+  - destruct (Rltb_spec 1 0); [lra|]. destruct (Req_EM_T 1 (-1)); [lra | reflexivity].
+  - destruct (Rltb_spec (-1) 0); [|lra]. destruct (Req_EM_T (-1) (-1)); [reflexivity | lra].
+Qed.
+Lemma neg1_R : (- none_)%num = (-1 : R).
+Proof. numR. lra. Qed.
+
+Lemma dft_forward_unfold sg hc shape axes (x : list Cx) : is_sign sg ->
+  dft_forward cispi sg hc shape axes x = if hc then rfftn cispi shape axes x else dftn cispi sg shape axes x.
+Proof.
+  intros Hs. unfold dft_forward, dft_fwd_call. rewrite sign_minus_R by exact Hs.
+  destruct hc; [reflexivity|]. destruct Hs as [-> | ->].
+  - destruct (Req_EM_T 1 (-1)); [lra|]. reflexivity.
+  - destruct (Req_EM_T (-1) (-1)); [|lra]. cbn [run_call]. rewrite neg1_R. reflexivity.
+Qed.
+Lemma dft_inverse_unfold sg hc shape axes (x : list Cx) : is_sign sg ->
+  dft_inverse cispi sg hc shape axes x = if hc then irfftn cispi shape axes x else idftn cispi sg shape axes x.
+Proof.
+  intros Hs. unfold dft_inverse, dft_inv_call. rewrite sign_minus_R by exact Hs.
+  destruct hc; [reflexivity|]. destruct Hs as [-> | ->].
+  - destruct (Req_EM_T 1 (-1)); [lra|]. reflexivity.
+  - destruct (Req_EM_T (-1) (-1)); [|lra]. cbn [run_call]. rewrite neg1_R. reflexivity.
+Qed.
+Lemma ftc_forward_unfold sg hc shape axes (x : list Cx) : is_sign sg ->
+  ftc_forward cispi sg hc shape axes x = if hc then rfftn cispi shape axes x else dftn cispi sg shape axes x.
+Proof.
+  intros Hs. unfold ftc_forward, ft_fwd_call. rewrite sign_minus_R by exact Hs.
+  destruct hc; [reflexivity|]. destruct Hs as [-> | ->].
+  - destruct (Req_EM_T 1 (-1)); [lra|]. reflexivity.
+  - destruct (Req_EM_T (-1) (-1)); [|lra]. cbn [run_call]. rewrite neg1_R. reflexivity.
+Qed.
+Lemma ftc_inverse_unfold sg hc shape axes (x : list Cx) : is_sign sg ->
+  ftc_inverse cispi sg hc shape axes x = if hc then irfftn cispi shape axes x else idftn cispi sg shape axes x.
+Proof.
+  intros Hs. unfold ftc_inverse, ft_inv_call. rewrite sign_minus_R by exact Hs.
+  destruct hc; [reflexivity|]. destruct Hs as [-> | ->].
+  - destruct (Req_EM_T 1 (-1)); [lra|]. reflexivity.
+  - destruct (Req_EM_T (-1) (-1)); [|lra]. cbn [run_call]. rewrite neg1_R. reflexivity.
+Qed.
+Lemma is_sign_opp sg : is_sign sg -> is_sign (- sg).
+Proof. intros [-> | ->]; [right | left]; lra. Qed.
 
 Variables (pi sq2pi : R).
 
@@ -168,6 +213,7 @@ Proof.
   intros Hk. unfold post_fac. cbv zeta.
   set (ker := kernel pi sq2pi cispi (stride a) _) in *.
   numR.
+  unfold pp_arg. numR.
   set (th := sg * a_min a * coord (recip_axis 1 a (Some sh) half) k).
   replace (- sg * a_min a * coord (recip_axis 1 a (Some sh) half) k) with (- th) by (unfold th; lra).
   pose proof (cis_neg cispi cis_add cis_0 th) as Hc.
@@ -238,8 +284,9 @@ Proof.
   { intros ax Hin. rewrite <- Hnth by exact Hin. apply Hax. exact Hin. }
   assert (Hlt : forall ax, In ax axes -> (ax < length shape)%nat).
   { intros ax Hin. unfold shape. rewrite map_length. apply Hax. exact Hin. }
-  unfold ft_inverse, ft_forward, f_rshape, f_shape, dft_forward, dft_inverse.
+  unfold ft_inverse, ft_forward, f_rshape, f_shape.
   cbn [f_grid f_axes f_shifts f_sg f_hc]. fold shape.
+  rewrite ftc_forward_unfold by exact Hs. rewrite ftc_inverse_unfold by (apply is_sign_opp; exact Hs).
   (* 1. post (x) divide-pre cancel *)
   rewrite tensor_mult_cancel.
   2:{ intros i _. apply tensor_fac_inv.
